@@ -143,6 +143,50 @@ def run(ck, w):
             else:
                 ck.fail(o, "io::directory_is_empty", "lists another directory", "read_dir argument derives from %s" % flow.origin_summary(src), rd[0][1].site())
 
+    o = ck.ob("C16.2e", "what restore does to the destination BEFORE it may refuse is only io::ensure_dir_exists, and that only creates the directory: "
+                        "no permission, ownership or time change, nothing removed")
+    ede = g.effects.get("io::ensure_dir_exists", set())
+    extra = ede & {"CHMOD", "CHOWN_FOLLOW", "CHOWN_NOFOLLOW", "UTIME_FOLLOW", "UTIME_NOFOLLOW", "UTIME_HANDLE", "FS_REMOVE"}
+    edb = lib.bodies.get("io::ensure_dir_exists")
+    perm_calls = [e for fb in lib.family("io::ensure_dir_exists") for e in fb.events if e.bb in fb.live and
+                  re.search(r"set_permissions|set_readonly|set_mode|::chown$|set_file_m?times?|remove_(file|dir)", e.name)]
+    if edb is None:
+        ck.fail(o, "io::ensure_dir_exists", "anchor-missing", "ensure_dir_exists not found")
+    elif extra or perm_calls:
+        ck.fail(o, "io::ensure_dir_exists", "the destination is modified before the refusal", "ensure_dir_exists has effects %s%s" % (
+            sorted(extra), (" and calls " + perm_calls[0].name) if perm_calls else ""), perm_calls[0].site() if perm_calls else None)
+    elif "FS_CREATE" not in ede:
+        ck.fail(o, "io::ensure_dir_exists", "does not create the directory", "effects %s" % sorted(ede))
+    else:
+        ck.ok(o, "effects=%s" % sorted(ede))
+    o = ck.ob("C16.1c", "restore(): directory metadata is deferred only for entries of kind Dir (the push lies on the Dir arm of the kind dispatch), and "
+                        "restore() never asks the file system what a restored path IS (a stat that follows links)")
+    pushes_ = [e for e in rb.events if e.bb in rb.live and e.name.endswith("Vec::<T, A>::push") and "DirDeferral" in (rb.locals[e.args[0]["pl"]["l"]] or "")]
+    kadt = lib.adts.get("kind::Kind")
+    dir_idx = [i for i, v in enumerate(kadt["variants"]) if v["name"] == "Dir"][0] if kadt else None
+    dir_edges = set()
+    for bb_ in sorted(rb.live):
+        t_ = rb.blocks[bb_]["term"]
+        if t_["tk"] != "switch":
+            continue
+        dl_ = flow.operand_local(t_["discr"])
+        for st_ in reversed(rb.blocks[bb_]["stmts"]):
+            if st_["sk"] == "assign" and st_["pl"]["l"] == dl_ and st_["rv"]["rk"] == "discr" and "kind::Kind" in (rb.locals[st_["rv"]["pl"]["l"]] or ""):
+                arms_ = {int(a[0]): a[1] for a in t_["arms"]}
+                if dir_idx in arms_:
+                    dir_edges.add((bb_, arms_[dir_idx]))
+            break
+    follow = [e for fb in lib.family("restore::restore") for e in fb.events if e.bb in fb.live and
+              re.search(r"^std::path::Path(Buf)?::(is_dir|is_file|exists|try_exists|metadata|canonicalize)$|^(std|tokio)::fs::(metadata|canonicalize)$", e.name)]
+    if not pushes_ or not dir_edges:
+        ck.fail(o, rb.name, "anchor-missing", "deferral pushes=%d, Dir arms=%d" % (len(pushes_), len(dir_edges)))
+    elif not all(rb.must_pass_edges(dir_edges, e.bb) for e in pushes_):
+        ck.fail(o, rb.name, "deferral queued outside the Dir arm", "a DirDeferral can be queued for an entry that is not of kind Dir", pushes_[0].site())
+    elif follow:
+        ck.fail(o, rb.name, "restore stats a restored path through links", "%s follows symlinks" % follow[0].name, follow[0].site())
+    else:
+        ck.ok(o, sites=[e.site() for e in pushes_])
+
     # ---- 3. paths stay below the destination -------------------------------------------------------------
     o = ck.ob("C16.3a", "restore(): the path given to restore_dir/restore_file/restore_symlink/DirDeferral is destination.join(&entry.apath[1..])")
     targets = []
